@@ -119,6 +119,7 @@ type ExifRec struct {
 	IFD0, Exif, GPS *Dir
 	Exp             *Expect
 	HasExif, HasGPS bool
+	Note string // description of the maker note, if one was added
 	Make            string
 }
 
@@ -378,6 +379,23 @@ func GenExifRec(r *core.Rng, o RecOpts) *ExifRec {
 
 	// ---- Exif IFD
 	x := rec.Exif
+	if r.Chance(1, 6) {
+		// a maker note: opaque to a reader that does not know the maker's format. For the two makes
+		// whose notes the library follows it is kept in that maker's terms: an empty directory
+		// (Canon), a note too short to hold Nikon's 18-byte header (Nikon).
+		en := makeEnum[rec.Make]
+		var note []byte
+		switch en {
+		case 7: // Canon: an empty directory (count 0, no next directory), the same in both byte orders
+			note = []byte{0, 0, 0, 0, 0, 0}
+		case 30: // Nikon
+			note = r.Bytes(r.Pick(0, 1, 4, 5, 8, 12, 17, 18))
+		default:
+			note = r.Bytes(r.Pick(0, 3, 4, 5, 18, 19, 60, 300))
+		}
+		x.Add(0x927c, Val{Type: TUndefined, B: note})
+		rec.Note = fmt.Sprintf("makernote(make=%q,%d bytes)", rec.Make, len(note))
+	}
 	if has() {
 		v := randRat(r)
 		x.Add(0x829a, Rational(v))
